@@ -663,7 +663,10 @@ def main(ctx, replay):
     #      then an Admin-API managed-endpoint upsert/delete is applied - it rewrites and reloads THAT file, so every pull endpoint must
     #      answer by the allowlists of the file now in force (route's own tokens when it declares any, otherwise the global ones)
     st_stats = staged_auth_then_mutation(ctx, info, rng)
+    rr_stats = refused_reload_keeps_pull_auth(ctx, info, rng)
     dist["staged_auth_then_mutation"] = st_stats
+    dist["refused_restart_reload"] = rr_stats
+    evaluations += rr_stats["decision_lines"]
     evaluations += st_stats["probes"]
 
     cov.update({
@@ -697,6 +700,52 @@ admin_api { listen "127.0.0.1:19444" }
   pull { path /pull/m2 }
 }
 """
+
+
+def refused_reload_keeps_pull_auth(ctx, info, rng):
+    """a reload that is REFUSED because it needs a restart (a pull_api setting changed) while the same file also renames, adds or re-tokens
+    pull routes: the running configuration stays in force as a whole - every pull (and worker) endpoint keeps answering by the allowlists
+    of the running file; in particular a route with its own tokens is not opened to the global token, or to nobody's token, in between"""
+    own = lambda r, p_, t: '"%s" {\n  pull {\n    path %s\n    auth token "raw:%s"\n  }\n}\n' % (r, p_, t)
+    head_g = 'ingress {\n  listen ":18080"\n}\npull_api {\n  listen ":19443"\n  auth token "raw:pt-global"\n%s}\nadmin_api { listen "127.0.0.1:19444" }\n'
+    head_n = 'ingress {\n  listen ":18080"\n}\npull_api {\n  listen ":19443"\n%s}\nadmin_api { listen "127.0.0.1:19444" }\n'
+    plain = '"/m1" {\n  pull { path /pull/m1 }\n}\n'
+    cases = []
+
+    def add(name, running, new):
+        paths = sorted(set(re.findall(r"path (/pull/[a-z0-9]+)", running + new)))
+        tokens = ["", "pt-global", "pt-m2", "pt-m3", "pt-m9", "pt-globa"]
+        probes = {"ingress": [], "pull": [{"path": p_, "token": t} for p_ in paths for t in tokens], "admin": [],
+                  "worker": [{"path": p_, "token": t} for p_ in paths for t in tokens], "seed_routes": ["/m1", "/m2", "/m3", "/m9"]}
+        cases.append({"name": name, "kind": "restart", "running": running, "new": new, "probes": probes, "limit_hit": None, "expect": "fail-restart"})
+    # with a global allowlist: the route that has its own token is renamed (path kept / path changed) in a file that also needs a restart
+    add("global+own:route-renamed", head_g % "" + plain + own("/m2", "/pull/m2", "pt-m2"), head_g % "  max_batch 7\n" + plain + own("/m9", "/pull/m2", "pt-m9"))
+    add("global+own:route-and-path-renamed", head_g % "" + plain + own("/m2", "/pull/m2", "pt-m2"), head_g % "  max_batch 7\n" + plain + own("/m9", "/pull/m9", "pt-m9"))
+    add("global+own:token-rotated", head_g % "" + plain + own("/m2", "/pull/m2", "pt-m2"), head_g % "  default_lease_ttl 11s\n" + plain + own("/m2", "/pull/m2", "pt-m9"))
+    # no global allowlist (every route has its own tokens)
+    add("own-only:route-renamed", head_n % "" + own("/m2", "/pull/m2", "pt-m2") + own("/m3", "/pull/m3", "pt-m3"),
+        head_n % "  max_batch 7\n" + own("/m9", "/pull/m2", "pt-m9") + own("/m3", "/pull/m3", "pt-m3"))
+    add("own-only:route-replaced", head_n % "" + own("/m2", "/pull/m2", "pt-m2") + own("/m3", "/pull/m3", "pt-m3"),
+        head_n % "  max_wait 9s\n" + own("/m9", "/pull/m9", "pt-m9") + own("/m3", "/pull/m3", "pt-m3"))
+    rc, out, err = C.harness_run(info["hbin"], ["reload-failed"], {"dir": os.path.join(ctx.scratch, "c11refused"), "cases": cases}, timeout=300)
+    if rc != 0:
+        raise RuntimeError("reload-failed (C11 refused restart reload) failed: " + err[-1500:])
+    stats = {"cases": len(cases), "refused": 0, "decision_lines": 0}
+    for c, r in zip(cases, json.loads(out)):
+        if r.get("setup_error"):
+            raise RuntimeError("refused-reload case %s: %s" % (c["name"], r["setup_error"]))
+        if r["reload_ok"] or not r["needs_restart"]:
+            raise RuntimeError("refused-reload case %s: the new file was expected to need a restart (reload_ok=%s needs_restart=%s %s)" % (
+                c["name"], r["reload_ok"], r["needs_restart"], r.get("new_compile_error")))
+        stats["refused"] += 1
+        stats["decision_lines"] += r.get("fp_lines", 0)
+        changed = [l for l in (r.get("fp_diff") or []) if l[2:].startswith(("pull[", "worker["))]
+        if changed:
+            C.report(ctx, "refused-reload-changed-pull-auth:%s" % c["name"].split(":")[0],
+                     "a reload refused as `restart required` changed what pull / worker endpoints answer (- before, + after the refused reload): %s; the running "
+                     "file stays in force as a whole: its allowlists decide" % "; ".join(changed[:6]),
+                     {"kind": "fault_sequence", "case": {"running_config": c["running"], "new_config_refused": c["new"]}, "observed": changed[:40]})
+    return stats
 
 
 def staged_auth_then_mutation(ctx, info, rng):
